@@ -28,6 +28,8 @@ run c14-unsorted-includes tool/src/c/header.rs 's/BTreeSet/HashSet/g' C14
 run c05-callback-in-struct-accepted core/src/hir/lowering.rs 's/if in_struct || !matches!(P::IN_OUT_STATUS, super::InputOrOutput::Input) {/if false {/' C05
 run c01-callback-params-reversed tool/src/c/ty.rs 's/\.map(|p| self.gen_ty_name(&p.ty, header).to_string())/.rev().map(|p| self.gen_ty_name(\&p.ty, header).to_string())/' C01
 run c03-callback-destructor-twice runtime/src/callback.rs 's/(destructor)(self.data);/(destructor)(self.data); (destructor)(self.data);/' C03
+run c02-cpp-callback-never-deleted tool/templates/cpp/runtime.hpp.jinja 's/        delete reinterpret_cast<const function_t \*>(cb);/        (void)cb;/' C02
+run c02-cpp-callback-string-arg-short tool/templates/cpp/runtime.hpp.jinja 's/return std::string_view{val.data, val.len};/return std::string_view{val.data, val.len > 2 ? val.len - 1 : val.len};/' C02
 # reverts of repairs made to /repo: the check that found the defect must fire again
 revert() { # commit checks...
   c="$1"; shift; name="revert-$c"; if [ -n "$FILTER" ] && [[ "$name" != *$FILTER* ]]; then return; fi
